@@ -109,6 +109,82 @@ func callSeq(who string, node ast.Node, table map[string]int, ignore func(string
 	return seq
 }
 
+// recvOnError: the statements of the `if err != nil` block that follows `_, err := svc.in.ReadFrom(..)` in the
+// receiver's loop: 3 conn.Close() (conn bound by `switch conn := svc.conn.(type)`), 4 return; logging is skipped,
+// anything else is fatal.
+func recvOnError(recv *ast.FuncDecl) []int {
+	var sw *ast.TypeSwitchStmt
+	for _, st := range recv.Body.List {
+		if t, ok := st.(*ast.TypeSwitchStmt); ok {
+			sw = t
+		}
+	}
+	if sw == nil {
+		die("receiver: no type switch on svc.conn")
+	}
+	bound := false
+	if as, ok := sw.Assign.(*ast.AssignStmt); ok && len(as.Lhs) == 1 && exprString(as.Lhs[0]) == "conn" && len(as.Rhs) == 1 {
+		if ta, ok := as.Rhs[0].(*ast.TypeAssertExpr); ok && ta.Type == nil && exprString(ta.X) == "svc.conn" {
+			bound = true
+		}
+	}
+	if !bound {
+		die("receiver: the type switch does not bind conn := svc.conn.(type)")
+	}
+	var loop *ast.ForStmt
+	for _, cc := range sw.Body.List {
+		for _, st := range cc.(*ast.CaseClause).Body {
+			if f, ok := st.(*ast.ForStmt); ok {
+				if loop != nil {
+					die("receiver: more than one loop")
+				}
+				loop = f
+			}
+		}
+	}
+	if loop == nil || loop.Cond != nil {
+		die("receiver: no unconditional for loop inside the type switch")
+	}
+	if len(loop.Body.List) != 2 {
+		die("receiver: the loop body is not `_, err := svc.in.ReadFrom(r); if err != nil {..}`")
+	}
+	as, ok := loop.Body.List[0].(*ast.AssignStmt)
+	if !ok || len(as.Lhs) != 2 || exprString(as.Lhs[1]) != "err" || len(as.Rhs) != 1 {
+		die("receiver: first loop statement is not `_, err := svc.in.ReadFrom(r)`")
+	}
+	if call, ok := as.Rhs[0].(*ast.CallExpr); !ok || exprString(call.Fun) != "svc.in.ReadFrom" {
+		die("receiver: first loop statement does not call svc.in.ReadFrom")
+	}
+	ifs, ok := loop.Body.List[1].(*ast.IfStmt)
+	if !ok || exprString(ifs.Cond) != "(err!=nil)" || ifs.Else != nil {
+		die("receiver: second loop statement is not `if err != nil {..}`")
+	}
+	var seq []int
+	for _, st := range ifs.Body.List {
+		switch st := st.(type) {
+		case *ast.IfStmt: // `if !isEOF(err) { log... }`
+			callSeq("receiver (error branch)", st, map[string]int{}, func(s string) bool { return isLogCall(s) || s == "isEOF" || s == "svc.cid" })
+		case *ast.ExprStmt:
+			call, ok := st.X.(*ast.CallExpr)
+			if !ok {
+				die("receiver: unexpected expression in the error branch at %v", fset.Position(st.Pos()))
+			}
+			switch s := exprString(call.Fun); {
+			case s == "conn.Close":
+				seq = append(seq, 3)
+			case isLogCall(s):
+			default:
+				die("receiver: unexpected call %s in the error branch", s)
+			}
+		case *ast.ReturnStmt:
+			seq = append(seq, 4)
+		default:
+			die("receiver: unexpected statement in the error branch at %v", fset.Position(st.Pos()))
+		}
+	}
+	return seq
+}
+
 func boolLit(b bool) string {
 	if b {
 		return "true"
@@ -273,15 +349,22 @@ func factsLife(repo string, o *out) {
 		return isLogCall(s) || s == "isEOF" || s == "p.cid" || s == "msg.Name" || s == "p.inStat.increment" || s == "int64"
 	})))
 
-	// ---- receiver / sender loops: 1 svc.in.ReadFrom   2 svc.out.WriteTo
+	// ---- receiver / sender loops: 1 svc.in.ReadFrom   2 svc.out.WriteTo   3 conn.Close (receiver: after a failed ReadFrom)
 	loopCalls := func(who string, fn *ast.FuncDecl) []int {
-		return callSeq(who, fn.Body, map[string]int{"svc.in.ReadFrom": 1, "svc.out.WriteTo": 2}, func(s string) bool {
+		return callSeq(who, fn.Body, map[string]int{"svc.in.ReadFrom": 1, "svc.out.WriteTo": 2, "conn.Close": 3}, func(s string) bool {
 			return isLogCall(s) || s == "isEOF" || s == "svc.cid" || s == "recover" || s == "svc.wgStopped.Done" ||
 				s == "svc.wgStarted.Done" || s == "time.Duration"
 		})
 	}
 	o.def("lifeRecvCalls", "List Nat", natList(loopCalls("receiver", recv)))
 	o.def("lifeSendCalls", "List Nat", natList(loopCalls("sender", send)))
+
+	// ---- receiver, what follows a failed ReadFrom (lifeRecvOnError): the loop is
+	//   for { _, err := svc.in.ReadFrom(r); if err != nil { <logging>; conn.Close(); return } }
+	// with `conn` the net.Conn of the enclosing type switch on svc.conn.  3 = conn.Close(), 4 = return.
+	// (ReadFrom never returns a nil error, so this branch is the only way out of the loop; its
+	// deferred Close of the incoming ring is part of bufferLocks.)
+	o.def("lifeRecvOnError", "List Nat", natList(recvOnError(recv)))
 
 	// ---- writeMessage: 1 `svc.out == nil` test  2 wmu.Lock  3 defer wmu.Unlock  4 out.WriteWait  5 out.Write  6 out.WriteCommit
 	wm := findFunc(fsr, "service", "writeMessage")
